@@ -54,6 +54,10 @@ CHECKS = {
    text="Seeded search over interleavings of 2-4 clients making first use of never-used lazily initialised objects, under the race detector: in-process on fresh copies (compact-builder file descriptors over a local registry, MessageInfo, ExtensionInfo, dynamicpb.Types, registries swapped into GlobalFiles/GlobalTypes) and in fresh OS processes for the process-global generated types, descriptors, legacy wrappers and caches. Observations of every client (descriptor renderings, lookup-table consistency, instance identity, codec and reflection behaviour) must equal the sequential run; no race, panic or deadlock.",
    note="Sampling of schedules; first use of an object can be explored once per fresh copy or process. Shims, runtime overlay and the scheduler are trusted; sequential semantics are taken as the reference.",
    technique="deterministic simulation: seeded schedule search over first-use paths of fresh objects and fresh processes, race detection, sequential-run oracle"),
+ "C14": dict(level="exploration", ref="DESIGN.md section 4 (C14)",
+   text="Seeded histories over message slots and harness-owned buffers in which the fault is the owner reusing its memory at a later, seeded instant: the input buffer of a completed (lazy or eager) Unmarshal is overwritten or reused for the next input, the source of a Clone/Merge is mutated in place, a bufio.Reader that delivered a protodelim frame goes on reading. Expected content is tracked from private copies only; every observation and the final state compare deterministic bytes and Equal, and an address-range walk rejects any byte slice of a message that overlaps a caller-owned buffer or another slot. Generated, opaque/lazy, extension-bearing and dynamicpb messages.",
+   note="Sampling of histories and fault instants. Deterministic bytes are taken as content identity; lazy buffers are observed only through their effects (content after scribble), not by address.",
+   technique="deterministic simulation: seeded operation/fault histories (buffer scribble, owner mutation, reader reuse) against a private-copy reference, plus address-overlap invariant"),
 }
 
 def main():
